@@ -9,6 +9,7 @@ CONSTANTS
   DevD7 = FALSE
   DevD14 = FALSE
   DevGiveUp = FALSE
+  DevRefusedGraft = FALSE
 CONSTRAINT HW
 POSTCONDITION Accepted
 CHECK_DEADLOCK FALSE
